@@ -1295,4 +1295,185 @@ theorem fInit_normalize_spec {L : Layouts} {E : Env} (hk : NameKeyOK L E) (n : N
     · exact ctorFlat_lengths E n _ [] (fun kc h => flatView_lengths _ _ _ h) (by intro pc h; cases h)
 
 
+
+/-- how `raise_on_missing` enters the uncached `find`: it turns the ambiguous `None` into an error, nothing else -/
+theorem findU_raise_cases (m : List (Path × Cols)) (tr : List (List Name)) (t : List Ident) :
+    (∀ v, findU m tr t true = .found v ↔ findU m tr t false = .found v) ∧
+    (findU m tr t true = .err .ambiguous → findU m tr t false = .notFound) ∧
+    (findU m tr t true = .notFound → findU m tr t false = .notFound) ∧
+    (findU m tr t false = .notFound →
+      findU m tr t true = .notFound ∨ findU m tr t true = .err .ambiguous ∨ findU m tr t true = .err .internal) := by
+  refine ⟨fun v => ⟨fun h => findU_found_raise h false, fun h => findU_found_raise h true⟩, ?_, ?_, ?_⟩
+  all_goals
+    unfold findU
+    simp only
+    generalize (List.take _ (List.map (fun x => x.name) t).reverse) = parts
+    unfold findInTrie
+    cases inTrie tr parts with
+    | failed => simp
+    | exists_ =>
+      simp only
+      cases lookup m parts.reverse <;> simp
+    | prefix_ ps =>
+      match ps with
+      | [] => simp
+      | [p] =>
+        simp only
+        cases lookup m (parts ++ p).reverse <;> simp
+      | _ :: _ :: _ => simp
+
+/-- under the invariant the trie only knows registered paths: `nested_get` after a trie hit cannot miss -/
+theorem findUncached_no_internal {E : Env} {S : St} (hS : Inv E S) (t : List Ident) (r : Bool) :
+    findUncached S t r ≠ .err .internal := by
+  rw [findUncached_eq]
+  cases hf : findInTrie S.trie (((t.map (·.name)).reverse).take (depth S)) r with
+  | none => simp
+  | ambiguous => simp
+  | parts ps =>
+    simp only
+    have hmem := findInTrie_parts_mem hf
+    rw [hS.trie_eq, List.mem_map] at hmem
+    obtain ⟨pc, hpc, e⟩ := hmem
+    have : lookup S.mapping ps.reverse ≠ none := by
+      intro hn
+      have := lookup_none_iff.mp hn
+      apply this
+      rw [← e, List.reverse_reverse]
+      exact List.mem_map.mpr ⟨pc, hpc, rfl⟩
+    cases hl : lookup S.mapping ps.reverse with
+    | some c => simp
+    | none => exact absurd hl this
+
+
+
+/-- the only exceptions `find` can raise: the ambiguity SchemaError, or `nested_get`'s ValueError -/
+theorem findU_err_kinds (m : List (Path × Cols)) (tr : List (List Name)) (t : List Ident) (r : Bool) (x : Err)
+    (h : findU m tr t r = .err x) : x = .ambiguous ∨ x = .internal := by
+  unfold findU at h
+  simp only at h
+  generalize (List.take _ (List.map (fun x => x.name) t).reverse) = parts at h
+  unfold findInTrie at h
+  cases hT : inTrie tr parts with
+  | failed => rw [hT] at h; simp at h
+  | exists_ =>
+    rw [hT] at h
+    simp only at h
+    cases hl : lookup m parts.reverse <;> rw [hl] at h <;> cases r <;> simp at h
+    exact Or.inr h.symm
+  | prefix_ ps =>
+    rw [hT] at h
+    match ps, h with
+    | [], h => cases r <;> simp at h; exact Or.inl h.symm
+    | [p], h =>
+      simp only at h
+      cases hl : lookup m (parts ++ p).reverse <;> rw [hl] at h <;> cases r <;> simp at h
+      exact Or.inr h.symm
+    | _ :: _ :: _, h => cases r <;> simp at h; exact Or.inl h.symm
+
+/-- the part of `add_table` after the nesting check, from any state `C0` with the abstract view of `C` -/
+theorem addTail_spec {L : Layouts} {E : Env} (hk : TypeKeyOK L E) {C : Core} {d : Nat} (nt : List Ident) (ncols : Cols)
+    (n : Nat) (hfl : ((nt.map Ident.name)).length = n + 1) :
+    ∀ C0 : Core, CShape C0 d → TInv L E C0 → absC C0 d = absC C d → (d = 0 ∨ d = n + 1) →
+    (match (cFind E L C0 nt false false).2 with
+      | .err e => ((cFind E L C0 nt false false).1, Out.err e)
+      | fr =>
+        if earlyReturn fr ncols then ((cFind E L C0 nt false false).1, Out.unit) else
+        (setCore (cFind E L C0 nt false false).1 (nt.map Ident.name) ncols
+          (evict L.evict (cFind E L C0 nt false false).1.findCache nt), Out.unit)).2 =
+      (match find E (absC C d) nt false false with
+        | (S1, r) =>
+          if earlyReturn r ncols then (S1, Out.unit) else
+          (({ mapping := dictSet S1.mapping (nt.map Ident.name) ncols,
+              trie := if S1.trie.contains (nt.map Ident.name).reverse then S1.trie
+                      else S1.trie ++ [(nt.map Ident.name).reverse],
+              cache := evict L.evict S1.cache nt } : St), Out.unit)).2 ∧
+    ∃ d', CShape (match (cFind E L C0 nt false false).2 with
+      | .err e => ((cFind E L C0 nt false false).1, Out.err e)
+      | fr =>
+        if earlyReturn fr ncols then ((cFind E L C0 nt false false).1, Out.unit) else
+        (setCore (cFind E L C0 nt false false).1 (nt.map Ident.name) ncols
+          (evict L.evict (cFind E L C0 nt false false).1.findCache nt), Out.unit)).1 d' ∧
+      TInv L E (match (cFind E L C0 nt false false).2 with
+      | .err e => ((cFind E L C0 nt false false).1, Out.err e)
+      | fr =>
+        if earlyReturn fr ncols then ((cFind E L C0 nt false false).1, Out.unit) else
+        (setCore (cFind E L C0 nt false false).1 (nt.map Ident.name) ncols
+          (evict L.evict (cFind E L C0 nt false false).1.findCache nt), Out.unit)).1 ∧
+      Equiv (absC (match (cFind E L C0 nt false false).2 with
+      | .err e => ((cFind E L C0 nt false false).1, Out.err e)
+      | fr =>
+        if earlyReturn fr ncols then ((cFind E L C0 nt false false).1, Out.unit) else
+        (setCore (cFind E L C0 nt false false).1 (nt.map Ident.name) ncols
+          (evict L.evict (cFind E L C0 nt false false).1.findCache nt), Out.unit)).1 d')
+        (match find E (absC C d) nt false false with
+        | (S1, r) =>
+          if earlyReturn r ncols then (S1, Out.unit) else
+          (({ mapping := dictSet S1.mapping (nt.map Ident.name) ncols,
+              trie := if S1.trie.contains (nt.map Ident.name).reverse then S1.trie
+                      else S1.trie ++ [(nt.map Ident.name).reverse],
+              cache := evict L.evict S1.cache nt } : St), Out.unit)).1 := by
+  intro C0 hC0 hT0 habs hdn
+  obtain ⟨h1, h2, h3, h4⟩ := cFind_spec hk hC0 hT0 nt false false
+  rw [habs] at h1 h2
+  have hne := find_noraise E (absC C d) nt false
+  generalize cFind E L C0 nt false false = cr at h1 h2 h3 h4
+  obtain ⟨C1, fr⟩ := cr
+  generalize find E (absC C d) nt false false = sr at h1 h2 hne
+  obtain ⟨S1, r⟩ := sr
+  simp only at h1 h2 h3 h4 hne ⊢
+  subst h1
+  cases fr with
+  | err x => exact absurd rfl (hne x)
+  | notFound =>
+    simp only
+    by_cases her : earlyReturn FindR.notFound ncols = true
+    · simp only [her, if_true]
+      exact ⟨trivial, d, h3, h4, by rw [h2]; exact Equiv.refl _⟩
+    · have her' := Bool.eq_false_iff.mpr her
+      simp only [her', Bool.false_eq_true, if_false]
+      obtain ⟨s1, s2⟩ := set_spec h3 (nt.map Ident.name) n hfl hdn ncols (evict L.evict C1.findCache nt)
+      refine ⟨trivial, n + 1, s1, ?_, ?_⟩
+      · exact h4
+      · rw [h2] at s2
+        have : C1.findCache = S1.cache := by rw [← h2]; rfl
+        rw [this] at s2 ⊢
+        exact s2
+  | found cols =>
+    simp only
+    by_cases her : earlyReturn (FindR.found cols) ncols = true
+    · simp only [her, if_true]
+      exact ⟨trivial, d, h3, h4, by rw [h2]; exact Equiv.refl _⟩
+    · have her' := Bool.eq_false_iff.mpr her
+      simp only [her', Bool.false_eq_true, if_false]
+      obtain ⟨s1, s2⟩ := set_spec h3 (nt.map Ident.name) n hfl hdn ncols (evict L.evict C1.findCache nt)
+      refine ⟨trivial, n + 1, s1, ?_, ?_⟩
+      · exact h4
+      · rw [h2] at s2
+        have : C1.findCache = S1.cache := by rw [← h2]; rfl
+        rw [this] at s2 ⊢
+        exact s2
+
+/-- **`add_table(match_depth=False)` whose table has exactly the schema's depth (or on an empty schema)** is inside
+    the refinement: same answer and same abstract successor as the flat `add_table` -/
+theorem coreAddNoCheck_spec {L : Layouts} {E : Env} (hk : TypeKeyOK L E) {C : Core} {d : Nat} (h : CShape C d)
+    (hT : TInv L E C) (nt : List Ident) (ncols : Cols) (hnt : nt ≠ []) (hd : d = 0 ∨ nt.length = d) :
+    (coreAddNoCheck E L C nt ncols).2 = (stepN E L.evict (absC C d) (.addTable nt ncols)).2 ∧
+    ∃ d', CShape (coreAddNoCheck E L C nt ncols).1 d' ∧ TInv L E (coreAddNoCheck E L C nt ncols).1 ∧
+      Equiv (absC (coreAddNoCheck E L C nt ncols).1 d') (stepN E L.evict (absC C d) (.addTable nt ncols)).1 := by
+  obtain ⟨n, hn⟩ : ∃ n, (nt.map Ident.name).length = n + 1 := by
+    cases nt with
+    | nil => exact absurd rfl hnt
+    | cons a as => exact ⟨as.length, by simp⟩
+  have hnl : nt.length = n + 1 := by simpa using hn
+  have hp : ¬ ((absC C d).mapping ≠ [] ∧ nt.length ≠ depth (absC C d)) := by
+    rintro ⟨h1, h2⟩
+    rcases hd with e | e
+    · subst e
+      cases h with
+      | empty e1 _ _ _ => exact h1 (by simp [absC, e1, flatView])
+    · exact h2 (by rw [depth_absC h, e])
+  simp only [stepN]
+  rw [if_neg hp]
+  exact addTail_spec hk nt ncols n hn C h hT rfl (by rcases hd with e | e; exact Or.inl e; exact Or.inr (by omega))
+
 end SqlglotModel.Schema
